@@ -121,3 +121,80 @@ Section Oracle.
   Definition desc_release (st : sstate) (w : nat) (p : Z) : sstate :=
     mkS (s_fl st) (s_def st) ((w, p) :: s_desc st) (s_mem st).
 End Oracle.
+
+(** Histories of stack / record requests and releases, with ghost bookkeeping of what is
+    live: [i_kind = true] a stack ([i_ptr] = the top pointer a thread carries, [i_word] the
+    size word stored above it), [false] a record.  [i_blk] = (start, length) of the memory
+    block behind it.  A release is well-formed when it gives back a live item; requests are
+    0 (default) or at least 1 with a page-rounded size of at most 2^30.  [sstep] returns
+    [None] on anything else. *)
+Record item := mkI { i_kind : bool; i_ptr : Z; i_blk : Z * Z; i_word : Z }.
+
+Inductive sop :=
+| SGet (w : nat) (n : Z) | SRel (w : nat) (top : Z)
+| DGet (w : nat) | DRel (w : nat) (p : Z).
+
+Record hs := mkHs { hs_st : sstate; hs_live : list item }.
+
+Definition hs_init : hs := mkHs s_init [].
+
+Fixpoint item_remove (k : bool) (p : Z) (l : list item) : option (item * list item) :=
+  match l with
+  | [] => None
+  | it :: r =>
+      if (Bool.eqb (i_kind it) k && Z.eqb (i_ptr it) p)%bool then Some (it, r)
+      else match item_remove k p r with
+           | Some (x, r') => Some (x, it :: r')
+           | None => None
+           end
+  end.
+
+Section Oracle.
+  Variable mmap : list region -> Z -> Z.
+  Variable gsz dsz : Z.
+
+  Definition def_blk (top : Z) : Z * Z := (top + 16 - gsz, round_page gsz).
+  Definition desc_blk (p : Z) : Z * Z := (p, round_page dsz).
+
+  Definition sstep (h : hs) (o : sop) : option hs :=
+    match o with
+    | SGet w n =>
+        if n =? 0 then
+          match stack_get mmap gsz (hs_st h) w 0 with
+          | SOk top st' => Some (mkHs st' (mkI true top (def_blk top) 0 :: hs_live h))
+          | _ => None
+          end
+        else if (1 <=? n) && (n + 4095 <? 2 ^ 64) && (round_page n <=? 2 ^ 30) then
+          match size_class (round_page n), stack_get mmap gsz (hs_st h) w n with
+          | Class i rs, SOk top st' =>
+              Some (mkHs st' (mkI true top (top - round_page n + 16, rs) (round_page n) :: hs_live h))
+          | _, _ => None
+          end
+        else None
+    | SRel w top =>
+        match item_remove true top (hs_live h), stack_release (hs_st h) w top with
+        | Some (_, l'), Some st' => Some (mkHs st' l')
+        | _, _ => None
+        end
+    | DGet w =>
+        let (p, st') := desc_get mmap dsz (hs_st h) w in
+        Some (mkHs st' (mkI false p (desc_blk p) 0 :: hs_live h))
+    | DRel w p =>
+        match item_remove false p (hs_live h) with
+        | Some (_, l') => Some (mkHs (desc_release (hs_st h) w p) l')
+        | None => None
+        end
+    end.
+
+  Fixpoint srun (ops : list sop) (h : hs) : option hs :=
+    match ops with
+    | [] => Some h
+    | o :: r => match sstep h o with Some h' => srun r h' | None => None end
+    end.
+
+  (** every block behind a live item or a free-list entry *)
+  Definition free_blocks (st : sstate) : list (Z * Z) :=
+    map blk_of_ent (fl_lists (s_fl st)) ++ map (fun e => def_blk (snd e)) (s_def st)
+        ++ map (fun e => desc_blk (snd e)) (s_desc st).
+  Definition all_blocks (h : hs) : list (Z * Z) := map i_blk (hs_live h) ++ free_blocks (hs_st h).
+End Oracle.
